@@ -7,9 +7,9 @@ import itertools, random, re as _re, json, math
 from pyvc import groups
 from pyvc.groups import ob
 
-PATTERNS = ["a", "a*", "", "b|", "(a)(b)?", "[ab]+", "a(?=b)", "^a", "b$", "\\\\b", "aa", "a.", "(a)a", "[ab][ab]", "a{2}|b"]
+PATTERNS = ["a", "a*", "", "b|", "(a)(b)?", "[ab]+", "a(?=b)", "^a", "b$", "\\\\b", "aa", "a.", "(a)a", "[ab][ab]", "a{2}|b", "(a*)b", "(x*)a(b*)"]
 PY = {"a": "a", "a*": "a*", "": "", "b|": "b|", "(a)(b)?": "(a)(b)?", "[ab]+": "[ab]+", "a(?=b)": "a(?=b)", "^a": "^a", "b$": "b$", "\\\\b": r"\b",
-      "aa": "aa", "a.": "a.", "(a)a": "(a)a", "[ab][ab]": "[ab][ab]", "a{2}|b": "a{2}|b"}
+      "aa": "aa", "a.": "a.", "(a)a": "(a)a", "[ab][ab]": "[ab][ab]", "a{2}|b": "a{2}|b", "(a*)b": "(a*)b", "(x*)a(b*)": "(x*)a(b*)"}
 FLAGS = ["", "g", "y", "gy", "gi", "gm"]
 SUBJECTS = ["", "a", "ab", "baab", "aXa", "A\na", "xaaay", "aaaa", "ababa"]
 
@@ -149,10 +149,12 @@ def get_substitution(matched, s, pos, caps, repl):
     return "".join(out)
 
 
-def all_matches(rx, s, is_global):
-    res, pos = [], 0
+def all_matches(rx, s, is_global, sticky=False, start=0):
+    """the matches RegExpExec finds: a sticky regex matches at the current position only (and a non-global sticky one
+    starts at lastIndex = start)"""
+    res, pos = [], (start if sticky and not is_global else 0)
     while pos <= len(s):
-        m = rx.search(s, pos)
+        m = rx.match(s, pos) if sticky else rx.search(s, pos)
         if m is None:
             break
         res.append(m)
@@ -164,7 +166,7 @@ def all_matches(rx, s, is_global):
 
 def spec_replace(rx, flags, s, repl):
     out, last = [], 0
-    for m in all_matches(rx, s, "g" in flags):
+    for m in all_matches(rx, s, "g" in flags, "y" in flags):
         out.append(s[last:m.start()])
         out.append(get_substitution(m.group(0), s, m.start(), list(m.groups()), repl))
         last = m.end()
@@ -173,9 +175,9 @@ def spec_replace(rx, flags, s, repl):
 
 def spec_match(rx, flags, s):
     if "g" not in flags:
-        m = rx.search(s)
+        m = rx.match(s, 0) if "y" in flags else rx.search(s)
         return None if m is None else [m.group(0)] + list(m.groups())
-    ms = [m.group(0) for m in all_matches(rx, s, True)]
+    ms = [m.group(0) for m in all_matches(rx, s, True, "y" in flags)]
     return ms or None
 
 
@@ -223,11 +225,23 @@ def _str_chunk(items):
         elif kind == "replace-fn":
             want = spec_replace(rx, flags, s, "<$&>").replace("<", "<").replace(">", ">")
             src = f"{json.dumps(s)}.replace({lit}, function(m){{ return '<' + m + '>' }})"
+        elif kind == "replace-fn-args":
+            # the replacer is called with (matched, capture 1..n (undefined when the group did not take part, '' when it
+            # matched nothing), position, subject) -- recorded as text
+            def rec(m):
+                caps = ["U" if g is None else "S:" + g for g in m.groups()]
+                return "[" + "|".join([m.group(0)] + caps + [str(m.start()), str(len(s))]) + "]"
+            out_, last_ = [], 0
+            for m in all_matches(rx, s, "g" in flags, "y" in flags):
+                out_.append(s[last_:m.start()]); out_.append(rec(m)); last_ = m.end()
+            want = "".join(out_) + s[last_:]
+            src = (f"{json.dumps(s)}.replace({lit}, function(){{ var a = []; for (var i = 0; i < arguments.length; i++) {{ var v = arguments[i]; "
+                   f"a.push(i === 0 ? v : (i < arguments.length - 2 ? (v === undefined ? 'U' : 'S:' + v) : (i === arguments.length - 1 ? v.length : v))); }} return '[' + a.join('|') + ']' }})")
         elif kind == "match":
             want = spec_match(rx, flags, s)
             src = f"var m = {json.dumps(s)}.match({lit}); m === null ? null : [].concat(m).map(function(x){{ return x === undefined ? null : x }})"
         elif kind == "search":
-            m = rx.search(s)
+            m = rx.match(s, 0) if "y" in flags else rx.search(s)
             want = -1 if m is None else m.start()
             src = f"{json.dumps(s)}.search({lit})"
         elif kind == "split":
@@ -235,7 +249,13 @@ def _str_chunk(items):
             src = f"{json.dumps(s)}.split({lit}{'' if extra is None else ', ' + str(extra)}).map(function(x){{ return x === undefined ? null : x }})"
         else:  # lastIndex after a global string method must be 0 / preserved
             src = f"var re = {lit}; re.lastIndex = 1; {json.dumps(s)}.{extra}(re{', ' + json.dumps('x') if extra == 'replace' else ''}); re.lastIndex"
-            want = 0 if ("g" in flags or "y" in flags) and extra in ("match", "replace") else 1
+            if extra == "search" or not ("g" in flags or "y" in flags):
+                want = 1                 # search saves and restores lastIndex; a plain regex ignores it
+            elif "g" in flags:
+                want = 0                 # a global match/replace runs until it fails, which resets lastIndex
+            else:
+                m1 = rx.match(s, 1) if 1 <= len(s) else None
+                want = m1.end() if m1 is not None else 0      # sticky, not global: one attempt at lastIndex
         try:
             got = c.eval(src)
         except Exception as e:  # noqa
@@ -251,11 +271,12 @@ def c20_string_methods(tier="quick", seed=0):
     items = []
     subj = SUBJECTS + ["aab", "abab", "xaxbx"]
     for pat in PATTERNS:
-        for flags in ("", "g", "gi"):
+        for flags in ("", "g", "gi", "y", "gy"):
             for s in subj:
                 for r in REPLS:
                     items.append(("replace", pat, flags, s, r))
                 items.append(("replace-fn", pat, flags, s, None))
+                items.append(("replace-fn-args", pat, flags, s, None))
                 items.append(("match", pat, flags, s, None))
                 items.append(("search", pat, flags, s, None))
                 for lim in (None, 0, 1, 2, 100):
@@ -550,3 +571,10 @@ for _fl in ("", "g", "y", "gy"):
              summaries=JS_SUMM, bind={"FLAGS": _fl})
     register(c_js_test, id=f"C20.JSRegExp.test.flags-{_fl or 'none'}", prop="C20", target=method("microjs.values", "JSRegExp.test"), native=None,
              summaries=JS_SUMM, bind={"FLAGS": _fl})
+
+
+@groups.group(id="C20.struct.process-state", prop="C20", kind="K3", functions=["microjs (module-level state)"])
+def c20_process_state(tier="quick", seed=0):
+    """lastIndex is the only state of a RegExp object: no cache of regex objects or compiled patterns in the process (the analysis of C12)"""
+    from contracts.C12_context import process_state
+    return process_state("C20", tier, seed)
